@@ -58,6 +58,10 @@ def main(argv):
         from nssvc import replay
 
         return replay.main(argv[1:])
+    if argv[0] == "selftest":
+        from nssvc import selftest
+
+        return selftest.main(argv[1:])
     prop = argv[0]
     tier = os.environ.get("VERIF_TIER", "quick")
     if "--tier" in argv:
